@@ -354,7 +354,8 @@ def _rollout_sig(t, v):
             key += f"[{v.event.get('exc', '?')}]"
     else:
         key = "inv-" + (v.invariant or "?")
-    return f"rollout:{t['cfg']['loop']}:{key}"
+    mode = ":gymnasium-default-autoreset" if t["cfg"].get("autoreset", "same") == "next" else ""
+    return f"rollout:{t['cfg']['loop']}:{key}{mode}"
 
 
 def _rollout_what(t, v):
@@ -414,6 +415,12 @@ def _rollout_stage(ctx):
             missing = [k for k in need if a.get(k, 0) == 0]
             if missing:
                 raise Vacuous(f"rollout stage: the recorded {loop} runs contain no {missing} (stats {a})")
+    # the vector environment users get from agilerl.utils.utils.make_vect_envs: gymnasium >= 1.0 resets a finished sub-environment in
+    # the NEXT step (the action of that step is ignored); the loop then stores a transition from the terminal observation into the
+    # new episode whose estimate bootstraps from the new episode's value (known finding F-C17-5)
+    nxt = rollout.run({"loop": "ppo", "E": 2, "seed": ctx.seed, "learn_steps": [6], "rolls": 2, "gens": 1, "autoreset": "next"})
+    ctx.case(("rollout", json.dumps(nxt["cfg"], sort_keys=True)))
+    ctx.validate("Rollout_Trace", ROLLOUT_CFG, [nxt], sig=_rollout_sig, what=_rollout_what)
     ctx.assume("rollout stage: the vector environments reset a finished sub-environment in the same step and return the first "
                "observation of the next episode (gymnasium SyncVectorEnv(autoreset_mode=SAME_STEP); AsyncPettingZooVecEnv); the "
                "recorded observations are checked against this rule (clause env-same-step-autoreset), it is not trusted")
